@@ -9,7 +9,7 @@ From Coq Require Strings.String.
 Import Coq.Strings.String.StringSyntax.
 From Acg Require Import Base.Str Base.Outcome Model.Retree Model.RetreeParse
   Model.RetreeRender Proofs.RetreeTotal Proofs.RetreeWf Proofs.RetreeRoundtrip
-  Proofs.RetreeQuant   Gen.GenRetreeTables.
+  Proofs.RetreeQuant Proofs.RetreeRanges Proofs.RetreeCompose   Gen.GenRetreeTables.
 Import ListNotations.
 Open Scope N_scope.
 
@@ -100,19 +100,9 @@ Theorem C16_gen_tables_small : tables_small T = true.
 Proof. vm_compute. reflexivity. Qed.
 Print Assumptions C16_gen_tables_small.
 
-(** [roundtrip], full statement (NOT proved as a whole; see docs/C16.md):
-
-      forall t, wf_regex t = true -> (chars of t are [wf_lit_char] / [wf_rng_char],
-        code points <= 0x10FFFF, a plain dash range only where the parser builds one) ->
-      parse_values T (render_values T t) = Ok t.
-
-    Proved parts: every character — all 1 114 112 code points, encoded or not — that
-    the renderer prints in a concatenation is read back by [_parse_char_literal] as
-    the same [Char], whatever follows it; the same in a character set with
-    [_parse_range_char]. The composition over quantifiers, groups, unions and range
-    lists is checked by the correspondence stream only (the implementation's
-    [render] output is re-parsed by the implementation and by the model on every
-    generated pattern). *)
+(** The sub-lemmas of [roundtrip], each for an arbitrary continuation of the input:
+    characters in both positions (all code points), decimal bounds, quantifiers, and
+    the list of ranges of a character set. *)
 Theorem C16_roundtrip_partial_char_literal : forall (c : rchar) (rest : list tok),
   ch_code c <= MAX_CODE -> wf_lit_char T c = true ->
   parse_char_literal T (map C (render_char (esc_lit T) c) ++ rest) = Ok (Some c, rest).
@@ -136,6 +126,64 @@ Theorem C16_roundtrip_partial_decimal : forall (n : N) (rest : list tok),
   starts_with_digit rest = false -> try_int (map C (dec n) ++ rest) = (Some n, rest).
 Proof. exact try_int_dec. Qed.
 Print Assumptions C16_roundtrip_partial_decimal.
+
+(** [quantifier_roundtrip]: all seven printed forms ([?] [*] [+] [{n}] [{0,m}] [{n,m}]
+    [{n,}], each with the non-greedy mark) are read back as the same quantifier; a greedy
+    one must not be followed by [?]. *)
+Theorem C16_quantifier_roundtrip : forall (q : quantifier) (rest : list tok),
+  wf_quant q = true -> (q_non_greedy q = false -> peek_lit [63] rest = false) ->
+  parse_quantifier (map C (render_quantifier q) ++ rest) = Ok (Some q, rest).
+Proof. exact quantifier_roundtrip. Qed.
+Print Assumptions C16_quantifier_roundtrip.
+
+(** Further generated side condition: every renderer escape starts with a backslash;
+    [-], []], [\] are escaped in a set; the parser reads [\^] in a set as a caret; [)]
+    stops a concatenation without raising. *)
+Theorem C16_gen_tables_rt_ok : tables_rt_ok T = true.
+Proof. vm_compute. reflexivity. Qed.
+Print Assumptions C16_gen_tables_rt_ok.
+
+(** [ranges_roundtrip]: [_parse_ranges_and_closing] reads back the ranges that
+    [transform_char_set] printed (unescaped first / last dash, escaped first caret,
+    ranges starting or ending at a dash, a caret or a bracket), for every non-empty list
+    of pairwise disjoint ordered ranges over renderable characters. *)
+Theorem C16_ranges_roundtrip : forall (compl : bool) (rs : list range) (rest : list tok),
+  rs <> [] -> forallb (range_rt_ok T) rs = true -> ranges_disjoint rs = true ->
+  parse_ranges_and_closing T (map C (render_ranges T true compl rs ++ [93]) ++ rest)
+  = Ok (rs, rest).
+Proof.
+  exact (ranges_roundtrip T C16_gen_escapes_roundtrip C16_gen_tables_small C16_gen_tables_rt_ok).
+Qed.
+Print Assumptions C16_ranges_roundtrip.
+
+(** [roundtrip], the full statement: for every tree that is well-formed ([wf_regex], what
+    [parsed_wf] guarantees), whose characters are Unicode code points that can be written
+    the way they are flagged (everything encoded; unencoded everything but [|] in a
+    concatenation; in a set everything), and that is not the single empty concatenation
+    [[[]]] (the parser returns the empty union for the empty pattern): re-parsing the
+    rendering gives exactly the tree. Hence also the same language, whatever the
+    semantics. *)
+Theorem C16_roundtrip : forall t : regex,
+  wf_rt T t = true -> parse_values T (render_values T t) = Ok t.
+Proof.
+  exact (roundtrip T C16_gen_escapes_roundtrip C16_gen_tables_small C16_gen_tables_rt_ok).
+Qed.
+Print Assumptions C16_roundtrip.
+
+(** Non-vacuity of [C16_roundtrip]: the tree of a pattern with every construct is in its
+    domain; an unencoded [|], the single empty concatenation and an ill-formed
+    quantifier are not. *)
+Example C16_roundtrip_domain :
+  match parse_string T (s2l "^(\x41|[+^\]a-c!-]{2,}?|\U0001F600*|\{|[\--/][^\^-z])+(|a)[-x].??$") with
+  | Ok t => wf_rt T t
+  | _ => false
+  end = true
+  /\ wf_rt T [[(VChar (mkChar 124 false), None)]] = false
+  /\ wf_rt T [[]] = false
+  /\ wf_rt T [[(VChar (mkChar 97 false), Some (mkQuant false 3 (Some 2)))]] = false
+  /\ wf_rt T [] = true.
+Proof. vm_compute. repeat split; reflexivity. Qed.
+Print Assumptions C16_roundtrip_domain.
 
 (** Non-vacuity: the unencoded characters excluded by [wf_lit_char] are exactly [|]
     among the first 256, and by [wf_rng_char] none; a closing brace round-trips. *)
